@@ -149,9 +149,13 @@ class TOPDirector(SectionLineParser):
         IOError
             If the def sections are missformatted
         """
+        # Conditionals inside a moleculetype are kept with the lines of that
+        # moleculetype, but the condition is tracked here as well because an
+        # #include or #error they enclose is handled by this parser.
         if line == '#endif':
             if self.current_itp:
                 self.current_itp.append(line)
+                self.current_meta = None
             elif self.current_meta is None:
                 raise IOError("Your #ifdef section is orderd incorrectly."
                               "At line {} I read {} but I haven not read"
@@ -162,6 +166,10 @@ class TOPDirector(SectionLineParser):
         elif line.startswith("#else"):
             if self.current_itp:
                 self.current_itp.append(line)
+                if self.current_meta is not None:
+                    inverse = {"ifdef": "ifndef", "ifndef": "ifdef"}
+                    self.current_meta = {'tag': self.current_meta["tag"],
+                                         'condition': inverse[self.current_meta["condition"]]}
             elif self.current_meta is None:
                raise IOError("Your #ifdef section is orderd incorrectly."
                              "At line {} I read {} but I haven not read"
@@ -175,6 +183,9 @@ class TOPDirector(SectionLineParser):
         elif line.startswith("#ifdef") or line.startswith("#ifndef"):
             if self.current_itp:
                 self.current_itp.append(line)
+                condition, tag = line.split()
+                self.current_meta = {'tag': tag,
+                                     'condition': condition.replace("#", "")}
             elif self.current_meta is None:
                 condition, tag = line.split()
                 self.current_meta = {'tag': tag,
